@@ -154,7 +154,7 @@ func (g graph) eval(in []uint64) []uint64 {
 func genGraph(rng interface {
 	IntN(int) int
 	Uint64() uint64
-}, maxInst int, taps bool) graph {
+}, maxInst int, taps bool, share bool) graph {
 	g := graph{Rsize: []int{8, 16, 32}[rng.IntN(3)]}
 	nf := 1 + rng.IntN(3)
 	for f := 0; f < nf; f++ {
@@ -221,6 +221,18 @@ func genGraph(rng interface {
 		it := inst{Name: fmt.Sprintf("n%d", i), Frag: rng.IntN(len(g.Frags))}
 		f := g.Frags[it.Frag]
 		for k := 0; k < f.NIn; k++ {
+			if share && rng.IntN(3) == 0 {
+				// a source that already has a consumer (an external input or an instance output read twice)
+				var used [][2]int
+				for _, e := range g.Insts {
+					used = append(used, e.Src...)
+				}
+				used = append(used, it.Src...)
+				if len(used) > 0 {
+					it.Src = append(it.Src, used[rng.IntN(len(used))])
+					continue
+				}
+			}
 			if len(free) > 0 && rng.IntN(3) != 0 {
 				x := rng.IntN(len(free))
 				it.Src = append(it.Src, [2]int{free[x].i, free[x].j})
@@ -293,6 +305,32 @@ func genGraph(rng interface {
 	return g
 }
 
+// consumersTogether tells whether every source that is read by several instances has all its
+// readers on one CP (readers on different CPs are a bond with fan-out across processors, which meets
+// C04's recorded duplicate-read findings).
+func (g graph) consumersTogether(part [][]int) bool {
+	block := map[int]int{}
+	for b, cp := range part {
+		for _, i := range cp {
+			block[i] = b
+		}
+	}
+	readers := map[[2]int][]int{}
+	for i, it := range g.Insts {
+		for _, s := range it.Src {
+			readers[s] = append(readers[s], i)
+		}
+	}
+	for _, rs := range readers {
+		for _, r := range rs[1:] {
+			if block[r] != block[rs[0]] {
+				return false
+			}
+		}
+	}
+	return true
+}
+
 // all set partitions of {0..n-1}, blocks kept in increasing (topological) order
 func partitions(n int) [][][]int {
 	var res [][][]int
@@ -321,7 +359,7 @@ func main() {
 	asmw.ServeIfWorker()
 	tier, replay := hx.Args()
 	run := evid.New("C06", tier, "exploration")
-	run.Rule = "graphs: random DAGs of 2..5 (thorough: ..7) instances of 1..3 generated fragments (1..3 resin, 1..2 resout, bodies over add/mult/inc/dec/cpy/rset reusing register names r0..r3, define-before-use), every link with exactly one consumer, external inputs/outputs at the loose ends; partitions: all set partitions for ≤5 instances, 40 sampled above, blocks in topological order; 4 input vectors per case; an evaluation = one (graph, partition); non-trivial = the machine delivered all output vectors; distinct by source text"
+	run.Rule = "graphs: random DAGs of 2..5 (thorough: ..7) instances of 1..3 generated fragments (1..3 resin, 1..2 resout, bodies over add/mult/inc/dec/cpy/rset reusing register names r0..r3, define-before-use), every link with exactly one consumer (in a quarter of the graphs some sources — external inputs or instance outputs — are read by two instance ports, and the partitions that keep all readers of a source on one CP are judged), external inputs/outputs at the loose ends; partitions: all set partitions for ≤5 instances, 40 sampled above, blocks in topological order; 4 input vectors per case; an evaluation = one (graph, partition); non-trivial = the machine delivered all output vectors; distinct by source text"
 	run.Assume = []string{"reference = direct evaluation of the dataflow graph with wrap-around arithmetic (cmd/c06 eval)",
 		"links have one consumer each (fan-out across CPs meets C04's recorded duplicate-read findings)",
 		"a source the assembler rejects is inconclusive; a non-topological collapse order must be rejected or correct"}
@@ -428,7 +466,7 @@ func main() {
 	rng := hx.RNG(run.Seed, "c06")
 	var cs []caseT
 	for gi := 0; gi < nGraphs; gi++ {
-		g := genGraph(rng, maxInst, gi%2 == 1)
+		g := genGraph(rng, maxInst, gi%2 == 1, gi%4 == 2)
 		var in [][]uint64
 		for k := 0; k < g.ExtIn; k++ {
 			var s []uint64
@@ -453,6 +491,9 @@ func main() {
 			parts = keep
 		}
 		for _, p := range parts {
+			if !g.consumersTogether(p) {
+				continue
+			}
 			cs = append(cs, caseT{G: g, Part: p, In: in, Label: "topological"})
 		}
 		// one non-topological collapse order: must be rejected or correct
